@@ -111,23 +111,58 @@ def _real_getcwd():
 
 # ------------------------------------------------------------------------------ file proxy
 class WFile:
-    """Proxy for a file object open for writing under the root."""
+    """Proxy for a file object open for writing under the root.
 
-    def __init__(self, f, path, layer):
-        object.__setattr__(self, "_f", f)
-        object.__setattr__(self, "_path", path)
-        object.__setattr__(self, "_layer", layer)
-        object.__setattr__(self, "_wclosed", False)
+    It *owns* the user-space buffering (like io.BufferedWriter): write() only appends to a pending buffer (event
+    "write-buffered", nothing reaches the OS); the pending bytes are pushed to the OS -- event "write", a mutating
+    call -- when the buffer would overflow, on flush(), on close(), and before seek()/read().  fsync() does NOT push
+    them.  The directory content at any event is therefore exactly what the kernel holds at that instant, and data
+    a program forgot to flush before fsync/rename is missing from crash states as it would be in reality."""
 
-    def write(self, data):
-        ev = self._layer.event("write", self._path, size=len(data))
+    def __init__(self, f, path, layer, bufsize=8192):
+        d = object.__setattr__
+        d(self, "_f", f)
+        d(self, "_path", path)
+        d(self, "_layer", layer)
+        d(self, "_wclosed", False)
+        d(self, "_pending", [])
+        d(self, "_npending", 0)
+        d(self, "_bufsize", bufsize)
+
+    def _push(self, why):
+        if not self._pending:
+            return
+        data = b"".join(self._pending)
+        ev = self._layer.event("write", self._path, size=len(data), why=why)
+        object.__setattr__(self, "_pending", [])
+        object.__setattr__(self, "_npending", 0)
         try:
-            n = self._f.write(data)
-            self._f.flush()        # reach the OS now: the on-disk state is exact at every event boundary
-            return n
+            self._f.write(data)
+            self._f.flush()
         except BaseException as e:
             self._layer.done(ev, e)
             raise
+
+    def write(self, data):
+        if isinstance(data, str):   # text-mode file: pass through, visible at once
+            ev = self._layer.event("write", self._path, size=len(data), why="text")
+            n = self._f.write(data)
+            self._f.flush()
+            return n
+        data = bytes(data)
+        if self._bufsize == 0:
+            ev = self._layer.event("write", self._path, size=len(data), why="unbuffered")
+            n = self._f.write(data)
+            self._f.flush()
+            return n
+        if self._npending + len(data) > self._bufsize:
+            self._push("buffer-full")
+        self._layer.event("write-buffered", self._path, size=len(data))
+        self._pending.append(data)
+        object.__setattr__(self, "_npending", self._npending + len(data))
+        if self._npending > self._bufsize:
+            self._push("buffer-full")
+        return len(data)
 
     def writelines(self, lines):
         for l in lines:
@@ -135,16 +170,38 @@ class WFile:
 
     def flush(self):
         ev = self._layer.event("flush", self._path)
+        self._push("flush")
         return self._f.flush()
 
     def truncate(self, *a):
+        self._push("truncate")
         ev = self._layer.event("truncate", self._path)
         return self._f.truncate(*a)
+
+    def seek(self, *a):
+        self._push("seek")
+        return self._f.seek(*a)
+
+    def read(self, *a):
+        self._push("read")
+        return self._f.read(*a)
+
+    def readinto(self, *a):
+        self._push("read")
+        return self._f.readinto(*a)
+
+    def readline(self, *a):
+        self._push("read")
+        return self._f.readline(*a)
+
+    def tell(self):
+        return self._f.tell() + self._npending
 
     def close(self):
         if not self._wclosed and not self._f.closed:
             object.__setattr__(self, "_wclosed", True)
             try:
+                self._push("close")
                 ev = self._layer.event("close-w", self._path)
             except BaseException:
                 # like BufferedWriter.close(): a failing final flush still closes the descriptor, then re-raises
@@ -154,6 +211,10 @@ class WFile:
                     pass
                 raise
         object.__setattr__(self, "_wclosed", True)
+        try:
+            self._layer.fdpaths.pop(self._f.fileno(), None)   # the descriptor number may be reused by another file
+        except (OSError, ValueError):
+            pass
         return self._f.close()
 
     def __enter__(self):
@@ -163,6 +224,7 @@ class WFile:
         self.close()
 
     def __iter__(self):
+        self._push("read")
         return iter(self._f)
 
     def __getattr__(self, name):
@@ -254,7 +316,7 @@ def _io_open(file, mode="r", buffering=-1, encoding=None, errors=None, newline=N
     if isinstance(file, int):
         f = orig(file, mode, buffering, encoding, errors, newline, closefd, opener)
         if writing and file in L.fdpaths:
-            return WFile(f, file if False else L.fdpaths[file], L)
+            return WFile(f, L.fdpaths[file], L, bufsize=0 if buffering == 0 else 8192)
         return f
     r = L.rel(file)
     if r is None:
@@ -271,7 +333,7 @@ def _io_open(file, mode="r", buffering=-1, encoding=None, errors=None, newline=N
             L.fdpaths[f.fileno()] = os.path.join(L.root, r)
         except (OSError, ValueError):
             pass
-        return WFile(f, file, L)
+        return WFile(f, file, L, bufsize=0 if buffering == 0 else 8192)
     ev = L.event("open-r", file)
     try:
         return orig(file, mode, buffering, encoding, errors, newline, closefd, opener)
